@@ -1,0 +1,15 @@
+//go:build verif
+
+// Contracts for the verification framework in /verif (comment-only file; it is
+// compiled only with -tags verif and contributes no code). Syntax: DESIGN.md §3.
+
+package radius
+
+// ---- coa.go: CoA / Disconnect listener (C09, C15) ----
+
+//@ func (s *CoAServer) verifyRequestAuthenticator
+//@   requires len(packet) >= 20 && len(authenticator) == 16
+//@   modifies nothing
+
+//@ func parseAttributes
+//@   modifies nothing
